@@ -333,7 +333,9 @@ theorem ciWilson_eq (crit : Crit Rex) (conf : Confidence Rex) (n k : ℕ)
   -- at exact arithmetic both Wilson bounds are proportions: the clamp into `[0,1]` is inert
   rw [Proportion.finishWilson_eq_finish conf _ _
     (by rw [wilsonCentre_val, wilsonSpan_val]; exact hlo.1)
-    (by rw [wilsonCentre_val, wilsonSpan_val]; exact hhi.2)]
+    (by rw [wilsonCentre_val, wilsonSpan_val]; exact hhi.2)
+    (by rw [wilsonCentre_val, wilsonSpan_val]; exact hhi.1)
+    (by rw [wilsonCentre_val, wilsonSpan_val]; exact hlo.2)]
   cases conf with
   | twoSided l =>
     simp only [Proportion.finish, Interval.new, RR.gt_iff, RR.sub_val, RR.add_val,
